@@ -137,6 +137,10 @@ pub fn response(toks: &[&str], i: &mut usize) -> Response {
     let mut r = if blen == "-" {
         let (_sender, r) = Response::event_stream();
         r.with_status(code)
+    } else if let Some(max) = blen.strip_prefix('g') {
+        // a handler that asks for the request body first (Response::get_body_and_reprocess / req.recv_body(n)?):
+        // the wrappers log such a result like any other (empty body)
+        Response::get_body_and_reprocess(max.parse().unwrap()).with_status(code)
     } else {
         let n: usize = blen.parse().unwrap();
         Response::new(code).with_body(vec![b'x'; n])
